@@ -629,10 +629,12 @@ class CQuoter:
                 unflagged = [b for b in back if b.env.get(fl[2]) == fl]
                 ok = ok_src and safe_back and bool(unflagged)
                 why = f"flag sources {[show(x) for x in srcs]}, {len(unflagged)} unflagged iteration state(s) all under `< 128 and bit_at(safe)`"
-            if not flags:
-                # for-else idiom: the return sits in the `else` of a loop over range(length) that is left by `break` as soon
+            if not ok:
+                # for-else / while-else idiom: the return sits in the `else` of a loop over range(length) that is left by `break` as soon
                 # as a unit is not literal-safe, so it is reached only when every iteration ran to its end
-                ok, why = self._skip_for_else(r, node)
+                ok2, why2 = self._skip_for_else(r, node)
+                if ok2 or not flags:
+                    ok, why = ok2, why2
             ctx.ob(rule, q, "return val (skip)", ok, "the unscanned input is returned without every unit being tested against "
                    "`< 128` and the safe table: " + why, where(fi, node), sample=why)
 
@@ -642,7 +644,7 @@ class CQuoter:
         n = node
         while getattr(n, "_parent", None) is not None:
             p = n._parent
-            if isinstance(p, _ast.For) and any(n is x for x in p.orelse):
+            if isinstance(p, (_ast.For, _ast.While)) and any(n is x for x in p.orelse):
                 loop = p
                 break
             n = p
@@ -660,9 +662,20 @@ class CQuoter:
             in_table = any(callee_name(k) == "bit_at" and fv for k, fv in b.facts.items())
             return below and in_table
         ok = all(safe(b) for b in back)
-        rng = loop.iter
-        full = isinstance(rng, _ast.Call) and isinstance(rng.func, _ast.Name) and rng.func.id == "range" and len(rng.args) == 1
-        return ok and full, f"for-else over range(length): {len(back)} completed-iteration state(s) all under `< 128 and bit_at(safe)`"
+        if isinstance(loop, _ast.For):
+            rng = loop.iter
+            full = isinstance(rng, _ast.Call) and isinstance(rng.func, _ast.Name) and rng.func.id == "range" and len(rng.args) == 1
+            how = "for-else over range(length)"
+        else:
+            # while <index>: ... else: - the index starts at the length and goes down by one per iteration until it is 0
+            from .unquoters import _is_length, lin
+            full = False
+            if isinstance(loop.test, _ast.Name):
+                phi = ("phi", lids[0], loop.test.id)
+                srcs = r.phis.get((lids[0], loop.test.id), set())
+                full = bool(srcs) and all(_is_length(x) or lin(x) == (phi, -1) or x == phi for x in srcs)
+            how = "while-else counting the index down from the length"
+        return ok and full, f"{how}: {len(back)} completed-iteration state(s) all under `< 128 and bit_at(safe)`"
 
     # ------------------------------------------------------------------
     def policy(self, cfg):
